@@ -22,6 +22,10 @@ where
     }
     let mut rhs_vector: Vec<f64> = rhs.iter().map(|x| (*x).into()).collect();
     let size = coeff_matrix.height;
+    if size == 0 {
+        // There is no last row to eliminate towards
+        return Err(SolverError::NonSquareMatrix);
+    }
     let mut solution = vec![0.0; size];
     let mut error_flag = 0;
 
@@ -35,6 +39,10 @@ where
             }
         }
     }
+    if scale_factor.contains(&0.0) {
+        // A row of zeros: nothing to scale its pivot candidates by
+        return Err(SolverError::SingularMatrix);
+    }
     forward_elimination(
         &mut coeff_matrix,
         &mut scale_factor,
@@ -44,9 +52,11 @@ where
         &mut error_flag,
     );
 
-    if error_flag != -1 {
-        back_substitution(&coeff_matrix, size, &rhs_vector, &mut solution);
+    if error_flag == -1 {
+        // A scaled pivot fell below the tolerance: there is no solution to report
+        return Err(SolverError::SingularMatrix);
     }
+    back_substitution(&coeff_matrix, size, &rhs_vector, &mut solution);
     Ok(solution)
 }
 
